@@ -373,6 +373,9 @@ func (hsClient) Exec(op string) (string, string, string, bool) {
 	if mon == "" && r0.appLeak {
 		mon = "application payload visible in clear on a session reported secure"
 	}
+	if mon == "" && r0.established && t[0] == "0" && r0.tech != socketace.SecurityTls && offeredStartTLS(data) {
+		mon = "StartTLS offered on an unencrypted carrier but the client established a plaintext session"
+	}
 	class := strings.SplitN(r0.result, " ", 2)[0]
 	if strings.HasPrefix(r0.result, "refused") {
 		class = "refused"
@@ -381,6 +384,34 @@ func (hsClient) Exec(op string) (string, string, string, bool) {
 		class = "established-" + r0.tech
 	}
 	return res, mon, class, r0.established
+}
+
+// offeredStartTLS: the first reply carries a plainly spelled `Capabilities:` header (first one wins) that lists StartTLS.
+func offeredStartTLS(data []byte) bool {
+	s := string(data)
+	e1 := blockEnd(s)
+	if e1 < 0 {
+		return false
+	}
+	m := s[:e1]
+	i := strings.Index(asciiLower(m), "\ncapabilities:")
+	if i < 0 {
+		return false
+	}
+	line := m[i+len("\ncapabilities:"):]
+	if j := strings.IndexByte(line, '\n'); j >= 0 {
+		// a continuation line would extend the value; stay on the safe side and only judge single-line values
+		if j+1 < len(line) && (line[j+1] == ' ' || line[j+1] == '\t') {
+			return false
+		}
+		line = line[:j]
+	}
+	for _, c := range strings.Split(strings.ToUpper(strings.Trim(line, " \t\r")), ",") {
+		if strings.Trim(c, " \t") == "STARTTLS" {
+			return true
+		}
+	}
+	return false
 }
 
 // independentClientCheck: necessary conditions for the client to proceed: two complete replies, the first with
